@@ -9,6 +9,7 @@
 EXTENDS Integers, Sequences, FiniteSets, TLC
 
 CONSTANTS MaxRecs, MaxL, MaxW, FinalNL,
+          MaxFetch,     \* intervals fetched one after the other in one batch
           BlankEnd      \* an empty line after the last record (a file that ends in two newlines)
 
 Rep(x, n) == [i \in 1..n |-> x]
@@ -62,21 +63,47 @@ WholeL1(recs, r) ==
       dels == {k \in 0..(Len(raw) - 1) : k % row.lenb = row.lenc}
   IN DeleteAt(raw, dels)
 
-\* ---- state machine: open a file, then fetch
+\* where the handle is put and how much is read for [a, b) of record r (the seek and the read of :190-197)
+FetchPlan(recs, r, a, b) ==
+  LET row == IndexRow(recs, r)
+      soff == (a \div row.lenc) * row.lenb + (a % row.lenc)
+      toff == (b \div row.lenc) * row.lenb + (b % row.lenc)
+  IN [from |-> row.offset + soff, n |-> toff - soff]
+
+\* ---- state machine: open a file, fetch a batch of intervals one after the other through ONE file handle,
+\* and (once) replace the file under the same path and open it again.
 Recs == UNION {[1..n -> [hdr : {2, 7}, L : 1..MaxL, W : 1..MaxW]] : n \in 1..MaxRecs}
-VARIABLES recs, last
-vars == <<recs, last>>
-Init == recs \in Recs /\ last = [op |-> "open"]
-Fetch(r, a, b) == last.op = "open" /\ last' = [op |-> "fetch", r |-> r, a |-> a, b |-> b, got |-> FetchL1(recs, r, a, b)] /\ UNCHANGED recs
-Whole(r) == last.op = "open" /\ last' = [op |-> "whole", r |-> r, got |-> WholeL1(recs, r)] /\ UNCHANGED recs
+VARIABLES recs, last,
+          pos,          \* position of the object's file handle
+          nf,           \* fetches done in the current batch
+          gen           \* 0 = the first file under this path, 1 = its replacement
+vars == <<recs, last, pos, nf, gen>>
+Init == recs \in Recs /\ last = [op |-> "open"] /\ pos = 0 /\ nf = 0 /\ gen = 0
+Min2(x, y) == IF x < y THEN x ELSE y
+\* every fetch positions the handle itself: the result does not depend on where the previous fetch left it
+Fetch(r, a, b) == /\ last.op \in {"open", "fetch"} /\ nf < MaxFetch
+                  /\ LET p == FetchPlan(recs, r, a, b) IN
+                     /\ last' = [op |-> "fetch", r |-> r, a |-> a, b |-> b, from |-> p.from, got |-> FetchL1(recs, r, a, b)]
+                     /\ pos' = Min2(p.from + p.n, Len(File(recs)))
+                  /\ nf' = nf + 1 /\ UNCHANGED <<recs, gen>>
+Whole(r) == /\ last.op = "open" /\ last' = [op |-> "whole", r |-> r, got |-> WholeL1(recs, r)]
+            /\ pos' = IndexRow(recs, r).offset /\ UNCHANGED <<recs, nf, gen>>
 WholeAny == \E r \in DOMAIN recs : Whole(r)
 FetchAny == \E r \in DOMAIN recs : \E a \in 0..(recs[r].L - 1) : \E b \in (a + 1)..recs[r].L : Fetch(r, a, b)
-Next == WholeAny \/ FetchAny
+\* the file is replaced by another one under the same path and indexed again: a deterministic other file
+\* (records in reverse order, line width moved on) so that the scope stays small; the index is a function of the
+\* CURRENT file (IndexRow(recs, .)), nothing of the first one survives
+Other(rs) == [k \in DOMAIN rs |-> [rs[Len(rs) + 1 - k] EXCEPT !.W = (@ % MaxW) + 1, !.L = (@ % MaxL) + 1]]
+Replace == /\ gen = 0 /\ last.op = "whole" /\ last.r = 1
+           /\ recs' = Other(recs) /\ last' = [op |-> "open"] /\ pos' = 0 /\ nf' = 0 /\ gen' = 1
+Next == WholeAny \/ FetchAny \/ Replace
 Spec == Init /\ [][Next]_vars
 
 OffsetsAgree == \A r \in DOMAIN recs : IndexRowArith(recs, r) = IndexRow(recs, r)
 FetchCorrect == /\ last.op = "fetch" => last.got = Substring(last.r, last.a, last.b)
                 /\ last.op = "whole" => last.got = Substring(last.r, 0, recs[last.r].L)
+\* a fetch starts where its own plan says, wherever the handle was
+SeeksItself == last.op = "fetch" => last.from = FetchPlan(recs, last.r, last.a, last.b).from
 \* the property restricted to what can be fetched without touching the unterminated end of the file
 FetchCorrectUnlessAtRaggedEnd ==
    (last.op = "fetch" /\ ~(~FinalNL /\ last.r = Len(recs) /\ last.b = recs[last.r].L /\ last.b % recs[last.r].W = 0))
